@@ -177,3 +177,9 @@ Theorem C15_joback_assembly : forall grid table chems,
               exists cs, joback_coefs table c = Some cs /\ List.length cs = 5%nat /\ Forall (fun t => 0 < cp cs t)%Q grid) chems.
 Proof. exact joback_gc_all_sound. Qed.
 Print Assumptions C15_joback_assembly.
+
+(** the normalising evaluators whose values are compared with the implementation denote the same numbers *)
+Theorem C15_ideal_gas_evaluator : forall R t0 cs t,
+    (ig_ratR R t0 cs t == ig_rat R t0 cs t)%Q /\ (cpR cs t == cp cs t)%Q.
+Proof. exact ideal_gas_evaluator. Qed.
+Print Assumptions C15_ideal_gas_evaluator.
